@@ -13,7 +13,7 @@ cargo test --workspace --no-fail-fast --offline >/tmp/seed_suite.log 2>&1 < /dev
 SUITE_FAIL=$(grep -cE "^test .* FAILED$" /tmp/seed_suite.log)
 grep -q "error: could not compile" /tmp/seed_suite.log && SUITE_FAIL=compile_error
 mkdir -p crates/$CRATE/tests; cp "$SD/demo.rs" crates/$CRATE/tests/seeded_demo.rs
-cargo test --offline -p $CRATE $SEED_FEATURES --test seeded_demo >/tmp/seed_demo_with.log 2>&1 < /dev/null
+cargo test --offline -p $CRATE ${SEED_FEATURES:-} --test seeded_demo >/tmp/seed_demo_with.log 2>&1 < /dev/null
 DEMO_FAIL_WITH=$(grep -E "^test result" /tmp/seed_demo_with.log | head -1)
 RESULTS=""
 for P in "$@"; do
@@ -22,6 +22,6 @@ for P in "$@"; do
 done
 git checkout -q -- .
 mkdir -p crates/$CRATE/tests; cp "$SD/demo.rs" crates/$CRATE/tests/seeded_demo.rs
-cargo test --offline -p $CRATE $SEED_FEATURES --test seeded_demo >/tmp/seed_demo_without.log 2>&1 < /dev/null
+cargo test --offline -p $CRATE ${SEED_FEATURES:-} --test seeded_demo >/tmp/seed_demo_without.log 2>&1 < /dev/null
 DEMO_WITHOUT=$(grep -E "^test result" /tmp/seed_demo_without.log | head -1)
 echo "SEED $(basename $(dirname $SD)) suite_failures_with_patch=$SUITE_FAIL demo_with_patch=[$DEMO_FAIL_WITH] demo_without_patch=[$DEMO_WITHOUT] checks:$RESULTS"
